@@ -257,6 +257,10 @@ def bounded(tier, seed, R):
     bad = ['0b11', '0B1', '0x1F', '0o17', ' 11', '11 ', '+11', '-11', '1_1', '1__1', '_11', '', ' ', '١١',
            '12', '8', 'G', 'g', 'fF', '1' * 10, '1' * 11, '7' * 10, 'F' * 10, '8000000000', '7FFFFFFFFF',
            '1.0', '1e1', 'TRUE', '#N/A', '#EMPTY!', '#VALUE!']
+    # white space that int() strips and that `$` / \Z handle differently: before, after, doubled
+    bad += [t for d in ('101', '17', '1F', '1') for t in (d + '\n', d + '\n\n', '\n' + d, d + '\t', d + '\r', d + '\x0b',
+                                                          d + '\x0c', d + '\x1c', d + '\u2003', d + '\r\n', d[:1] + '\n' + d[1:])]
+    bad += ['1111111111\n', '7777777777\n', 'FFFFFFFFFF\n']
     typed = [None, True, False, 0, 1, 101, 101.0, 101.5, -1, 2, 777, 1e10, 1e11, ((1, 2),), ((1,),), [[5]]]
     for b in (2, 8, 16):
         for s in bad + typed:
@@ -273,6 +277,29 @@ def bounded(tier, seed, R):
                             if not isinstance(s, (tuple, list)) else True,
                             {'value': s, 'places': p, 'base_in': b, 'base_out': b2})
     # order independence of repeated calls (a memoised implementation must not conflate TRUE and 1)
+    for first, second in ((True, 1), (1, True), (1.0, 1), (1, 1.0), (False, 0), (0, False), (0.0, False), (True, 1.0)):
+        for b in (2, 8, 16):
+            for p in (None, 4, 10, True, 1):
+                def chk2():
+                    E._dec2base(first, p, b)
+                    return post_dec2base(second, p, b, E._dec2base(second, p, b))
+                R.guard('_dec2base/post#0:post_dec2base', chk2, {'first': first, 'second': second, 'places': p, 'base': b})
+
+                def chk3():
+                    E._base2dec(first, b)
+                    return post_base2dec(second, b, E._base2dec(second, b))
+                R.guard('_base2dec/post#0:post_base2dec', chk3, {'first': first, 'second': second, 'base': b})
+        for name in ('dec2bin', 'dec2oct', 'dec2hex', 'bin2dec', 'bin2hex', 'hex2bin', 'oct2dec'):
+            def chk4():
+                f = getattr(E, name)
+                f(first)
+                a_ = f(second)
+                import importlib
+                import pycel.lib.engineering as fresh_mod
+                return a_ == f(second) and type(a_) is type(f(second)) and (
+                    (isinstance(second, bool) and a_ == VALUE_ERROR) or not isinstance(second, bool))
+            R.guard('bounded/public_bindings_do_not_remember_operand_types', chk4,
+                    {'function': name, 'first': first, 'second': second})
     for first, second in ((True, 1), (1, True), (1.0, 1), (False, 0), (0, False)):
         for b in (2, 8, 16):
             def chk():
